@@ -1,8 +1,64 @@
 import Genshi.Wire
+import Genshi.Model.Lru
 namespace Driver.C15
-open Genshi
+open Genshi Genshi.Sexp Genshi.Lru
 
-/-- stub: the model driver for C15 is not built yet -/
-def handle : List Sexp → Option Sexp := fun _ => none
+/-! ### LRU container: `C15 lru <cap> <nkeys> ( ops… )` -/
+
+def op? : Sexp → Option (Op Nat Nat)
+  | .list [.atom "G", k] => do let k ← k.toNat?; pure (.get k)
+  | .list [.atom "P", k, v] => do let k ← k.toNat?; let v ← v.toNat?; pure (.set k v)
+  | .list [.atom "C", k] => do let k ← k.toNat?; pure (.contains k)
+  | .atom "L" => some .len
+  | .atom "I" => some .iter
+  | _ => none
+
+def outS : Out Nat Nat → Sexp
+  | .val v => .list [.atom "v", ofNat v]
+  | .keyError => .atom "KE"
+  | .unit => .atom "U"
+  | .bool b => ofBool b
+  | .nat n => .list [.atom "n", ofNat n]
+  | .keys ks => .list (.atom "k" :: ks.map ofNat)
+
+def optS : Option Nat → Sexp
+  | none => .atom "N"
+  | some n => ofNat n
+
+def idsS : Option (List Nat) → Sexp
+  | none => .atom "loop"
+  | some l => .list (l.map ofNat)
+
+/-- the full linked structure: head, tail, len(_dict), the nodes along `nxt` from head
+    (id prv nxt key value), the ids along `prv` from tail, the `_dict` entries over the key
+    universe `0..nkeys-1`, and the model's own well-formedness verdict -/
+def dumpS (c : CLru Nat Nat) (nkeys : Nat) : Sexp :=
+  let fwd := walkNxt c.heap (c.size + 2) c.head
+  let bwd := walkPrv c.heap (c.size + 2) c.tail
+  let nodes : Sexp := match fwd with
+    | none => .atom "loop"
+    | some l => .list (l.map fun i =>
+        let n := c.heap i
+        .list [ofNat i, optS n.prv, optS n.nxt, ofNat n.key, ofNat n.val])
+  let keys := List.range nkeys
+  let dict : List Sexp := keys.filterMap fun k => (c.dict k).map fun i => .list [ofNat k, ofNat i]
+  .list [optS c.head, optS c.tail, ofNat c.size, nodes, idsS bwd, .list dict,
+         ofBool (wfCheck c keys)]
+
+def adumpS (a : ALru Nat Nat) : Sexp := .list (a.items.map fun (k, v) => .list [ofNat k, ofNat v])
+
+def lruRun (cap nkeys : Nat) (ops : List (Op Nat Nat)) : Sexp :=
+  let (a, aouts) := arun (aempty cap) ops
+  let abs := .list [.list (aouts.map outS), adumpS a]
+  match crun (empty cap ⟨none, none, 0, 0⟩) ops with
+  | none => .list [.atom "crash", abs]
+  | some (c, outs) => .list [.list [.list (outs.map outS), dumpS c nkeys], abs]
+
+def handle : List Sexp → Option Sexp
+  | [.atom "lru", cap, nkeys, .list ops] => do
+      let cap ← cap.toNat?; let nkeys ← nkeys.toNat?
+      let ops ← ops.mapM op?
+      pure (lruRun cap nkeys ops)
+  | _ => none
 
 end Driver.C15
